@@ -353,6 +353,128 @@ theorem lin_cfg_defined (s : EqSystem) (hs : Homogeneous s) (prec : List Bool) (
     ∃ r, numSysLinCfgF s prec small re rp redE redP y p = .ok r :=
   numSysLinCfgF_defined hs prec small re rp redE redP hshape hnr hy
 
+/-! ## The reducer hypothesis, kernel-checked for the conservation block
+
+`RowEquiv` is no longer a free hypothesis for `rref_preserv`: the model function `preservCert` (decidable, over ℚ) checks
+weights `P`, `L` with `(B'|b') = P·(B|B·c₀)` and `(B|B·c₀) = L·(B'|b')` against the reducer's output, and a successful
+check IS the hypothesis.  The driver evaluates `preservCert` on the real `linear_rref(B, B·c₀)` output of every generated
+`rref_preserv` case (op `preserv_cert`). -/
+
+/-- **Certificate soundness.**  If `rowEquivCert n P L A b A' b' = true` then the (cast) rational augmented systems
+    `(A|b)` and `(A'|b')` satisfy `RowEquiv` — the hypothesis of the `rref_zero_iff_*` theorems. -/
+theorem reducer_certificate_sound (n : ℕ) (P L A : List (List ℚ)) (b : List ℚ) (A' : List (List ℚ)) (b' : List ℚ)
+    (h : rowEquivCert n P L A b A' b' = true) : RowEquiv n (castM A) (castL b) (castM A') (castL b') :=
+  rowEquivCert_sound n P L A b A' b' h
+
+/-- **`rref_preserv = True`, certified (linear formulation, hence Square / LinRel through their state).**
+    Homogeneous system, rational initial concentrations `c₀`, reducer output `red` for the conservation system, and a
+    certificate accepted by the model (`preservCert … = true`): the residual of `NumSysLin(rref_preserv=True).f`
+    vanishes iff `Q_i(y) = K_i` for every reaction and `B·y = B·c₀` — with NO hypothesis on the reducer left. -/
+theorem rref_preserv_zero_iff_certified (s : EqSystem) (hs : Homogeneous s) (prec : List Bool) (small : ℝ)
+    (c0 : List ℚ) (P L : List (List ℚ)) (red : Reduced ℚ) (redE : Reduced ℝ) (y p r : List ℝ)
+    (hp : initConcsOf s p = castL c0) (hcert : preservCert s c0 P L red = true)
+    (h : numSysLinCfgF s prec small false true redE ⟨castM red.rA, castL red.rb⟩ y p = .ok r) :
+    (∀ x ∈ r, x = 0) ↔
+      (∀ νK ∈ (netStoichs s).zip (eqParamsOf s p), quotient y νK.1 = νK.2) ∧
+      (∀ b ∈ compMat s, total b y = total b (initConcsOf s p)) := by
+  obtain ⟨A, hA, hiff⟩ := rref_zero_iff_lin s prec small false true redE ⟨castM red.rA, castL red.rb⟩ y p r h
+    (by simp) (by simp) (by simp) (fun _ => preservCert_sound s c0 P L red hcert p hp)
+  rw [stoichs_homog hs] at hA
+  cases hA
+  rwa [ksOf_homog hs] at hiff
+
+/-- the same for the logarithmic formulation (positive constants) -/
+theorem rref_preserv_zero_iff_certified_log (s : EqSystem) (hs : Homogeneous s) (prec : List Bool) (small : ℝ)
+    (c0 : List ℚ) (P L : List (List ℚ)) (red : Reduced ℚ) (redE : Reduced ℝ) (y p r : List ℝ)
+    (hp : initConcsOf s p = castL c0) (hK : ∀ k ∈ eqParamsOf s p, 0 < k) (hcert : preservCert s c0 P L red = true)
+    (h : numSysLogCfgF s prec small false true redE ⟨castM red.rA, castL red.rb⟩ y p = .ok r) :
+    (∀ x ∈ r, x = 0) ↔
+      (∀ νK ∈ (netStoichs s).zip (eqParamsOf s p), quotient (logPost y) νK.1 = νK.2) ∧
+      (∀ b ∈ compMat s, total b (logPost y) = total b (initConcsOf s p)) := by
+  obtain ⟨A, hA, hiff⟩ := rref_zero_iff_log s prec small false true redE ⟨castM red.rA, castL red.rb⟩ y p r h
+    (by rw [ksOf_homog hs]; exact hK) (by simp) (fun _ => preservCert_sound s c0 P L red hcert p hp)
+  rw [stoichs_homog hs] at hA
+  cases hA
+  rw [ksOf_homog hs] at hiff
+  exact hiff
+
+/-- **`rref_equil = True`, certified in log coordinates.**  Homogeneous system, positive state, positive constants.
+    Let `E`, `E'` be rational coordinate matrices with `ln K_i = Σ_k E_ik·λ_k` and (reduced column) `rb_j = Σ_k E'_jk·λ_k`
+    for some real vector `λ` (the logs of the primes occurring in the rational constants), let the reduced rows be the
+    rational matrix `A'`, and let the model accept the certificate (`equilCertSys … = true`).  Then the residual of
+    `NumSysLin(rref_equil=True, rref_preserv=rp).f` vanishes iff `Q_i(y) = K_i` for every reaction and the totals agree.
+    What is left as hypothesis are the two coordinate identities `hks`, `hrb` (number identities, checked exactly by the
+    harness through prime factorisation) and, for `rp = true`, `hP` (dischargeable by `preservCert`). -/
+theorem rref_equil_zero_iff_certified (s : EqSystem) (hs : Homogeneous s) (prec : List Bool) (small : ℝ) (rp : Bool)
+    (m : ℕ) (P L E A' E' : List (List ℚ)) (lam : List ℝ) (redE redP : Reduced ℝ) (y p r : List ℝ)
+    (hy : ∀ x ∈ y, 0 < x) (hK : ∀ k ∈ eqParamsOf s p, 0 < k)
+    (hks : (eqParamsOf s p).map Real.log = colOf E lam) (hrA : redE.rA = castM A') (hrb : redE.rb = colOf E' lam)
+    (hcert : equilCertSys s m P L E A' E' = true)
+    (hP : rp = true → RowEquiv s.ns (intMat (compMat s)) (totalsOf s p) redP.rA redP.rb)
+    (h : numSysLinCfgF s prec small true rp redE redP y p = .ok r) :
+    (∀ x ∈ r, x = 0) ↔
+      (∀ νK ∈ (netStoichs s).zip (eqParamsOf s p), quotient y νK.1 = νK.2) ∧
+      (∀ b ∈ compMat s, total b y = total b (initConcsOf s p)) := by
+  have hre : RowEquiv s.ns (intMat (netStoichs s)) ((eqParamsOf s p).map Real.log) redE.rA redE.rb := by
+    have := equilCert_sound s.ns m P L _ E A' E' lam hcert
+    rwa [castM_intMat, ← hks, ← hrA, ← hrb] at this
+  obtain ⟨A, hA, hiff⟩ := rref_zero_iff_lin s prec small true rp redE redP y p r h
+    (fun _ => hy) (fun _ => by rw [ksOf_homog hs]; exact hK)
+    (fun _ A hA => by
+      rw [stoichs_homog hs] at hA
+      cases hA
+      rw [ksOf_homog hs]
+      exact hre) hP
+  rw [stoichs_homog hs] at hA
+  cases hA
+  rwa [ksOf_homog hs] at hiff
+
+/-- **`rref_equil = True`, constants certified too.**  The constants are given as rationals `ks` and the model checks
+    (`equilCertFull`) that `K_i = ∏_k p_k^{E_ik}` for positive integer bases `p` (so `ln K = E·ln p`, and `K > 0`, are
+    THEOREMS here, not hypotheses) and that the reduced rows / log coordinates are row-equivalent.  The only thing still
+    assumed about the reducer is that its (symbolic) right-hand side is the number `rb_j = Σ_k E'_jk · ln p_k`. -/
+theorem rref_equil_zero_iff_certified_constants (s : EqSystem) (hs : Homogeneous s) (prec : List Bool) (small : ℝ)
+    (rp : Bool) (ps : List ℕ) (E : List (List ℤ)) (ks : List ℚ) (P L A' E' : List (List ℚ))
+    (redE redP : Reduced ℝ) (y p r : List ℝ)
+    (hy : ∀ x ∈ y, 0 < x) (hp : eqParamsOf s p = castL ks)
+    (hrA : redE.rA = castM A') (hrb : redE.rb = colOf E' (ps.map fun (q : ℕ) => Real.log (q : ℝ)))
+    (hcert : equilCertFull s ps E ks P L A' E' = true)
+    (hP : rp = true → RowEquiv s.ns (intMat (compMat s)) (totalsOf s p) redP.rA redP.rb)
+    (h : numSysLinCfgF s prec small true rp redE redP y p = .ok r) :
+    (∀ x ∈ r, x = 0) ↔
+      (∀ νK ∈ (netStoichs s).zip (eqParamsOf s p), quotient y νK.1 = νK.2) ∧
+      (∀ b ∈ compMat s, total b y = total b (initConcsOf s p)) := by
+  simp only [equilCertFull, Bool.and_eq_true] at hcert
+  obtain ⟨hk, he⟩ := hcert
+  exact rref_equil_zero_iff_certified s hs prec small rp ps.length P L (intMat E) A' E' _ redE redP y p r hy
+    (by rw [hp]; exact ksCert_pos ps E ks hk) (by rw [hp]; exact ksCert_sound ps E ks hk) hrA hrb he hP h
+
+/-- **Witness: outside the positive orthant the zero set depends on the configuration.**  `2 NO2 = N2O4`, `K = 4`, state
+    `(-1, 4)`: the unreduced equilibrium entry `(-1)^(-2)·4/4 - 1` is `0`, whereas with `rref_equil=True` the reduced row
+    `(1, -1/2 | -ln 2)` gives `(-1)^1·4^(-1/2) / exp(-ln 2) - 1 = -2` (the value the real code returns, too).  This is why
+    `rref_zero_iff_lin` and the certified theorems need a positive state; on positive states all configurations agree. -/
+theorem reduced_block_differs_off_orthant_witness :
+    equilResidual (prodPowRow ([-1, 4] : List ℝ) [-2, 1]) 4 = 0 ∧
+    equilResidual (prodPowRowR ([-1, 4] : List ℝ) [1, -1 / 2]) (Real.exp (-Real.log 2)) = -2 := by
+  constructor
+  · rw [equilResidual_eq_zero_iff, prodPowRow_real]
+    norm_num [quotient]
+  · have hk : Real.exp (-Real.log 2) = 1 / 2 := by
+      rw [Real.exp_neg, Real.exp_log (by norm_num)]; norm_num
+    have hq : prodPowRowR ([-1, 4] : List ℝ) [1, -1 / 2] = -1 / 2 := by
+      unfold prodPowRowR
+      rw [foldl_mul_real, one_real, one_mul]
+      simp only [List.zipWith_cons_cons, List.zipWith_nil_right, List.prod_cons, List.prod_nil, mul_one]
+      show Real.rpow (-1) 1 * Real.rpow 4 (-1 / 2) = -1 / 2
+      rw [four_rpow_neg_half]
+      show (-1 : ℝ) ^ (1 : ℝ) * (1 / 2) = -1 / 2
+      rw [Real.rpow_one]
+      norm_num
+    rw [hk, hq]
+    unfold equilResidual
+    rw [beq_zero_real]
+    norm_num
+
 /-! ## Non-vacuity: a concrete instance (water autoprotolysis, exact over ℚ) -/
 
 /-- `H2O = H+ + OH-` with species `H2O, H+, OH-` (compositions as produced by `Species.from_formula`) -/
@@ -395,6 +517,29 @@ example : ∀ kv ∈ water.substances, HasElement kv.2 := by
   intro kv hkv
   simp [water] at hkv
   rcases hkv with rfl | rfl | rfl <;> exact ⟨by decide, by decide⟩
+
+/-- the certificate is satisfiable and discriminating: for water, `c₀ = (55, 1/4, 1/8)`, the conservation system
+    `(B | B·c₀)` (keys charge, H, O; rank 2) and its reduced row echelon form `((1,0,1 | 441/8), (0,1,-1 | 1/8))`
+    are accepted with `P = (e₃, e₁)`, `L = (e₂, 2e₁+e₂, e₁)`; a wrong right-hand side is rejected -/
+example : preservCert water [55, 1 / 4, 1 / 8] [[0, 0, 1], [1, 0, 0]] [[0, 1], [2, 1], [1, 0]]
+    ⟨[[1, 0, 1], [0, 1, -1]], [441 / 8, 1 / 8]⟩ = true := by decide +kernel
+
+example : preservCert water [55, 1 / 4, 1 / 8] [[0, 0, 1], [1, 0, 0]] [[0, 1], [2, 1], [1, 0]]
+    ⟨[[1, 0, 1], [0, 1, -1]], [441 / 8, 1 / 4]⟩ = false := by decide +kernel
+
+/-- the equilibrium-block certificate is satisfiable and discriminating: rows `(1,-1,0)`, `(0,1,-1)` with constants
+    `K = (2, 12)`, i.e. log coordinates over `(ln 2, ln 3)`: `E = ((1,0),(2,1))`; reduced form `(1,0,-1 | ln 24)`,
+    `(0,1,-1 | ln 12)`, i.e. `E' = ((3,1),(2,1))`; accepted with `P = ((1,1),(0,1))`, `L = ((1,-1),(0,1))`; a wrong reduced
+    constant (`ln 72` instead of `ln 24`) is rejected -/
+example : equilCert 3 2 [[1, 1], [0, 1]] [[1, -1], [0, 1]]
+    [[1, -1, 0], [0, 1, -1]] [[1, 0], [2, 1]] [[1, 0, -1], [0, 1, -1]] [[3, 1], [2, 1]] = true := by decide +kernel
+
+example : equilCert 3 2 [[1, 1], [0, 1]] [[1, -1], [0, 1]]
+    [[1, -1, 0], [0, 1, -1]] [[1, 0], [2, 1]] [[1, 0, -1], [0, 1, -1]] [[3, 2], [2, 1]] = false := by decide +kernel
+
+/-- the constants certificate: `K = (2, 12) = (2¹·3⁰, 2²·3¹)` over the bases `(2, 3)` is accepted, `K = (2, 13)` is not -/
+example : ksCert [2, 3] [[1, 0], [2, 1]] [2, 12] = true := by decide +kernel
+example : ksCert [2, 3] [[1, 0], [2, 1]] [2, 13] = false := by decide +kernel
 
 /-- at the exactly constructed equilibrium (c = (55, 1e-7, 1e-7), K = Q(c), c₀ = c − ξ·ν) all four equations vanish -/
 example : numSysLinF (α := Rat) water [] 0 [55, 1 / 10000000, 1 / 10000000]
